@@ -72,6 +72,8 @@ REJECT = ["(1", "[1, 2", "{ var a = 1;", "f(1, 2", "'abc", '"abc', "'abc\n'", "/
           "010", "08", "00", "09.5", "var n = 017", "[0, 01]", "x = 1 + 007",
           # statements on one line are separated by a semicolon (automatic semicolon insertion needs a line break, a brace or the end)
           "1 2", "var a = 1 var b = 2", "'it''s'", "var x = 5 x", "if (1) 2 else 3", "var a = 1; a++ a", "f() g()", "x = 1 y = 2", "return 1 2", "var o = {a: 1} var p = 2", "break lbl x", "throw 1 2",
+          # no line break between throw and its value
+          "throw\n1", "try { throw\n new Error('x') } catch (e) { }", "function f(){ throw /* a\n b */ 1 }",
           # elements of an array literal are separated by commas
           "[[1] 5]", "[1 2]", "[[1] [2] 3]", "[1, [2] 3]", "[[1], [2] 'x']", "[{} 1]", "[[[1]] 2]"]
 def _invalid_targets():
@@ -101,6 +103,9 @@ ACCEPT_SAME = [("1+2*3", " 1 +\t2 /*c*/ * // d\n 3 "), ("var a=[1,2,3];a[1]", "v
                # the consequent and the alternate of ?: are assignment expressions
                ("var y=0;var r=false?1:y=7;[r,y].join()", "'7,7'"), ("var y=0;var r=true?y=3:4;[r,y].join()", "'3,3'"), ("var y=0,z=0;true?y=1:z=2;[y,z].join()", "'1,0'"), ("var f=0?null:x=>x*2;f(4)", "8"),
                ("var f=1?x=>x+1:null;f(4)", "5"), ("var y=1;var r=0?1:0?2:y+=5;r", "6"), ("var a=0?1:2,b=3;b", "3"),
+               # a line break before ++ / -- ends the statement: the operator belongs to what follows
+               ("var a=1,b=5;a\n++b;[a,b].join()", "'1,6'"), ("var a=1,b=5;a\n--b;[a,b].join()", "'1,4'"), ("var x;x=1\n++x\nx", "2"), ("var a=1;a++\na", "2"), ("var a=1;a ++;a", "2"),
+               ("var a=1,b=5;a/* c\n */++b;[a,b].join()", "'1,6'"),
                # an elision is an element (it reads as undefined)
                ("[1,,2].length", "3"), ("[,].length", "1"), ("[1,,].length", "2"), ("[,,1,,].length", "4"), ("[1,,2][1]===undefined", "true"), ("[[1],,[2]].length", "3"), ("[1,].length", "1"),
                ("String([1,,3][2])", "'3'"),
@@ -375,6 +380,43 @@ def c13_positions(tier="quick", seed=0):
                 res = "!" + type(e).__name__
             if res != want and bad["throw"] is None:
                 bad["throw"] = (t2, f"{kind}: location {res}, the failing statement is at {want}")
+    # ... and after real tokens: the parser looks ahead (arrow functions, regular expression literals) and must put the lexer's
+    # line and column back exactly; the offending character comes after an expression prefix laid out over several lines
+    import random as _rnd
+    r2 = _rnd.Random(seed + 11)
+    prefixes = [["x"], ["x", "+"], ["(", "x"], ["x", "=", "y", "+"], ["f", "(", "a", ","], ["[", "1", ","], ["x", "+", "y", "*"], ["(", "a", ",", "b", ")", "+"], ["a", "?", "b", ":"],
+                ["typeof", "x", "+"], ["x", "=", "(", "y", ")", "+"], ["o", ".", "p", "+"], ["a", "=>", "a", "+"], ["(", "a", ")", "=>", "a", "+"], ["x", "/", "y", "/"], ["a", "[", "0", "]", "+"]]
+    triv2 = [" ", "\n", "\n\n", " \n ", "/* c */", "/* a\n b */", "// line\n", "\t", "  "]
+    for _ in range(n // 2):
+        toks = r2.choice(prefixes)
+        src2, line2, col2 = "", 1, 1
+        for tk in toks + ["@"]:
+            gap = "".join(r2.choice(triv2) for _k in range(r2.randint(0, 3)))
+            if src2 and not gap and (src2[-1].isalnum() and tk[0].isalnum()):
+                gap = " "
+            if src2.endswith("/") and (gap.startswith("/") or (not gap and tk.startswith("/"))):
+                gap = " " + gap            # (a slash followed by a comment opener would read as a comment)
+            for ch in gap + ("" if tk == "@" else tk):
+                src2 += ch
+                if ch == "\n":
+                    line2, col2 = line2 + 1, 1
+                else:
+                    col2 += 1
+        src2 += "@"
+        cnt["syntax-error"] += 1
+        try:
+            Context(time_limit=10).eval(src2)
+            res = "accepted"
+        except JSSyntaxError as e:
+            res = (e.line, e.column)
+        except Exception as e:  # noqa
+            res = "!" + type(e).__name__
+        # (a restricted position may turn the line break into a statement end: then an earlier token is the offender; what is
+        # checked is that a reported '@' is reported where it is, and that no position lies beyond the text)
+        nlines = src2.count("\n") + 1
+        ok2 = res == (line2, col2) or (isinstance(res, tuple) and res[0] is not None and 1 <= res[0] <= nlines and res < (line2, col2))
+        if not ok2 and bad["syntax-error"] is None:
+            bad["syntax-error"] = (src2, f"JSSyntaxError at {res}; the offending character '@' is at {(line2, col2)} (the text has {nlines} lines)")
     # the other line terminators (CR, CR LF, LS, PS) in the trivia: the reported place is the character's under one of the two
     # sensible conventions -- only LF starts a line (the lexer's own), or every LineTerminator does with CR LF as one -- never a
     # line the text does not have
